@@ -62,7 +62,7 @@ def random_state_vector(
     # Schmidt rank plays a role.
     if 0 < k_param < np.min(dim):
         # Allow the user to enter a single number for dim.
-        if isinstance(dim, int):
+        if isinstance(dim, (int, np.integer)):
             dim = [dim, dim]
 
         # If you start with a separable state on a larger space and multiply
